@@ -138,6 +138,25 @@ def analyse(cls_name, data, a, b, fractions, nodes=GRID_NODES):
             Pi = np.asarray(est(np.array([lo_i, hi_i])), dtype=float)
         nev += 3
         A.intervals[f] = (lo_i, hi_i, float(Fi[1] - Fi[0]), float(Pi[0]), float(Pi[1]))
+    # call-order independence on ONE object: nearby fractions asked in one order, then every fraction asked again - an
+    # interval must not depend on which intervals were asked for before
+    A.order = []
+    close = [(0.683, 0.68268), (0.95449, 0.954), (0.5, 0.5004)]
+    with lib(f"interval-order-{cls_name}"):
+        first = {}
+        for fa, fb in close:
+            first[fa] = tuple(float(v) for v in est.interval(fa))
+            first[fb] = tuple(float(v) for v in est.interval(fb))
+        for fa, fb in close:
+            again_b = tuple(float(v) for v in est.interval(fb))
+            again_a = tuple(float(v) for v in est.interval(fa))
+            A.order.append((fa, first[fa], again_a))
+            A.order.append((fb, first[fb], again_b))
+        for f in fractions:
+            A.order.append((f, A.intervals[f][:2], tuple(float(v) for v in est.interval(f))))
+    nev += 12 + len(fractions)
+    # two different fractions must not share one interval
+    A.distinct = [(fa, fb, first[fa], first[fb]) for fa, fb in close]
     return A, nev
 
 
@@ -145,6 +164,16 @@ def own_density_oracles(A, cls_name, where, detail, fails, sl):
     """the clauses of the statement for one fitted estimator, against its own density"""
     a = A.a
     sd = A.sd
+    # the interval for a fraction does not depend on which intervals were asked for before (same object, repeated call)
+    for f, was, now in getattr(A, "order", []):
+        scale = max(abs(was[1] - was[0]), 1e-300)
+        if max(abs(was[0] - now[0]), abs(was[1] - now[1])) > 1e-9 * scale:
+            fails.append(fail(f"interval/{cls_name}/depends-on-earlier-interval-calls", f"{where}: interval({f}) gave {was} first and {now} when asked again after other fractions", **detail))
+            break
+    for fa, fb, ia, ib in getattr(A, "distinct", []):
+        if ia == ib and fa != fb:
+            fails.append(fail(f"interval/{cls_name}/different-fractions-share-one-interval", f"{where}: interval({fa}) and interval({fb}) are identical: {ia}", **detail))
+            break
     # normalisation
     e = abs(A.mass - 1.0)
     sl(f"normalisation/{cls_name}", e / TOL_NORM)
